@@ -92,7 +92,7 @@ def main(tier):
     rep.functions = src_hash(mb.BaseMatcher.match, mb.BaseMatcher._match_non_emitting_states, mb.BaseMatcher._match_non_emitting_states_inner,
                              mb.BaseMatcher._match_non_emitting_states_end, mb.LatticeColumn.upsert, mb.BaseMatching.update, mb.BaseMatching.next)
     budget = 60 if tier == 'quick' else 900
-    res = gabs.run_all(rep, run_instance, instances(tier), budget, 16 * (100 if tier == 'quick' else 1500))
+    res = gabs.run_all(rep, run_instance, instances(tier), budget, 16 * (100 if tier == 'quick' else 900))
     rep.bounds = dict(graphs="oneway3, oneway4, tri, line2, k3 (node states)" if tier == 'quick' else "all digraphs <=3 nodes, fork, oneway4, path4",
                       T="2..3", config="avoid_goingback=False, no width; max_dist or min_prob_norm symbolic; obs_noise_ne in {default, 0.5, 2.0}")
     rep.outside = ["rounding", "graphs/traces beyond the bound", "second-order transition terms (avoid_goingback=True)"]
